@@ -42,6 +42,31 @@ def scenarios(seed, n, prop="c15"):
     return scs
 
 
+def serial_scenarios(seed, n, prop="c15"):
+    """LUBA / SCI runs with prompt report delivery (the model's timeouts fire only when nothing is coming)"""
+    rng = random.Random(seed + 199)
+    scs = []
+    for k in range(n):
+        drv = "luba" if k % 2 else "sci"
+        callers = []
+        for ci in range(rng.choice([1, 2, 2, 3])):
+            unit = [[rng.choice(["dapc", "q16", "cfg", "qdt6", "cfgdt6", "q24", "c24", "yn16"]), 8 * ci + j + 1]
+                    for j in range(rng.randrange(1, 4))]
+            c = {"name": "ABC"[ci], "mode": rng.choice(["send", "sequence"]), "unit": unit,
+                 "start": rng.choice([{"time": 0.0}, {"writes": rng.randrange(1, 6)}, {"reports": rng.randrange(1, 8)}])}
+            if prop == "c17" and rng.random() < 0.35:
+                c["cancel"] = rng.choice([{"writes": rng.randrange(1, 8)}, {"reports": rng.randrange(1, 10)}])
+            callers.append(c)
+        nout = sum(len(c["unit"]) for c in callers) * 2 + 2
+        outcomes = []
+        for j in range(nout):
+            r = rng.random()
+            outcomes.append(["val", 10 + j] if r < 0.7 else ["none", 0] if r < 0.9 else ["err", 0])
+        scs.append({"driver": drv, "callers": callers, "trace_events": 1, "outcomes": outcomes,
+                    "release_plan": [rng.choice([1, 1, 2, -1]) for _ in range(rng.randrange(0, 30))], "tag": "strace:%d" % k})
+    return scs
+
+
 def to_trace(r):
     """projection of one recorded run onto the trace format read by AsyncTrace.tla"""
     callers = [{"name": c["name"], "mode": c["mode"], "exceptions": c["exceptions"],
@@ -49,6 +74,7 @@ def to_trace(r):
     known = {c["name"] for c in callers}
     lim = r["scenario"].get("reconnect_limit")
     return {"callers": callers, "limit": -1 if lim is None else lim, "tag": r["scenario"].get("tag"), "id": r.get("id", 0),
+            "driver": r["scenario"]["driver"], "conf_per_twice": 1 if r["scenario"]["driver"] == "sci" else 2,
             "events": [e for e in r["events"] if "c" not in e or e["c"] in known]}
 
 
@@ -62,10 +88,12 @@ def validate(traces, sc):
     """one TLC run per trace (constants come from the trace); returns list of (accepted, maxl, len)"""
     def one(ix):
         t = traces[ix]
-        path = sc.file("trace-%d.json" % ix)
+        path = sc.file("trace-%d-%d.json" % (id(traces) % 100000, ix))
         with open(path, "w") as fh:
-            json.dump({"callers": t["callers"], "events": t["events"], "limit": t["limit"]}, fh)
-        r = core.run_tlc("AsyncTrace", "AsyncTrace.cfg", sc, env={"TRACE": path}, workers=1, timeout=300, tag="tr%d" % ix, xmx="1g")
+            json.dump({"callers": t["callers"], "events": t["events"], "limit": t["limit"],
+                       "conf_per_twice": t.get("conf_per_twice", 2)}, fh)
+        module = "SerialTrace" if t.get("driver") in ("luba", "sci") else "AsyncTrace"
+        r = core.run_tlc(module, module + ".cfg", sc, env={"TRACE": path}, workers=1, timeout=300, tag="tr%d" % ix, xmx="1g")
         accepted = "Invariant NotConsumed is violated" in r.out
         maxl = 0
         for v in core.extract_tagged(r.out, "MAXL"):
@@ -134,9 +162,11 @@ def conformance(out, recs, sc):
     drift = [(t, m) for t, (acc, m, n, st) in zip(traces, res) if not acc]
     out.states += sum(st for _, _, _, st in res)
     out.extra["model_conformance"] = {
-        "model": "AsyncDriver.tla via AsyncTrace.tla", "traces": len(traces), "accepted": len(traces) - len(drift),
+        "model": "AsyncDriver.tla via AsyncTrace.tla (Tridonic), SerialDriver.tla via SerialTrace.tla (LUBA, SCI)",
+        "traces": len(traces), "accepted": len(traces) - len(drift),
+        "traces_by_driver": {d: sum(1 for t in traces if t["driver"] == d) for d in ("tridonic", "luba", "sci")},
         "events": sum(len(t["events"]) for t in traces),
         "drift": [{"id": t["id"], "matched_prefix": m - 1, "next_events": t["events"][max(0, m - 2):m + 1]} for t, m in drift[:5]]}
     for t, m in drift[:5]:
-        print("# DRIFT (not a verdict): run %s is not a behaviour of AsyncDriver.tla after %d of %d events; next: %s" % (
+        print("# DRIFT (not a verdict): run %s is not a behaviour of the driver model after %d of %d events; next: %s" % (
             t["id"], m - 1, len(t["events"]), json.dumps(t["events"][m - 1:m])))
